@@ -1824,6 +1824,10 @@ class ServerSuite(SystemSuite):
             queued = None
             if not rows:
                 return f"touch {k}: the selection (stage {want}) was not rung at the Look to that followed it"
+            stand_calls = [t for (t, c) in calls_made(out) if c == "Stand" and look <= t < nxt]
+            if stand_calls:
+                return (f"touch {k}: Wheatley itself called 'Stand' at {float(stand_calls[0]):.3f}s although the method being rung "
+                        f"(stage {want}) fits the tower of {n}: a selection meant for the NEXT touch must not touch this one")
             method_rows = [b for (r, b, _t) in rows if r >= 2]
             got = moved_bells(method_rows)
             # (which method is rung can only be seen if the method starts: up-down-in may have been switched off
